@@ -1,2 +1,253 @@
-(* C14 -- statements only. *)
-From UP Require Import Base.Chars Model.Uri.
+(* C14 -- any allocation failure is reported cleanly, without leak or corruption.
+   Statements only; proofs in Proofs/LedgerProofs.v, LedgerOps.v, LedgerBase.v, LedgerNormalize.v, LedgerTheorems.v,
+   LedgerTransparent.v, LedgerRefused.v.
+
+   The theorems are about the memory tier of the model (Model/Mem.v, ParseM.v, OpsM.v), which mirrors the C
+   code allocation by allocation, every error exit included (gen/c14.py compares full allocation traces for
+   every failure position).  No hypothesis is made on the fault plan: [ms_plan s] is any of NoFault,
+   FailOnce k, FailFrom k, for any k, and the request counter of [s] is arbitrary, so "the k-th request fails,
+   whether or not later ones fail too" is covered for every k.  Sizes are unbounded.
+
+   Reading guide.  [fails_between s s']: the plan refused a request made between s and s' (C14_vocabulary).
+   [bad_frees]: releases that hit a block that was not live = released twice, or never handed out.
+   [owns m s]: every block the object refers to is live in s (and they are pairwise distinct), so the object
+   the call leaves behind never refers to released memory; this is as far as "no released memory is touched"
+   can be said in this model: reads and writes of block contents are not modelled (the sanitizer builds of
+   gen/c14.py observe them on the implementation).
+   Read-only inputs ([rel], [base], [src]) are Coq values passed to the function and not returned: the model
+   cannot change them by construction; what the theorems add is that none of their blocks is released
+   ([incl (live_ids s) (live_ids s')], resp. the permutations, which leave every other live block in place).
+
+   Covered calls: parse, make owner, normalize (any mask, borrowed and owned), add base (resolve), remove
+   base (create reference), free members.  NOT covered: dissect query / compose query (no memory-tier model). *)
+From Coq Require Import List NArith Permutation Lia.
+From UP Require Import Base.Chars Model.Uri Model.Mem Model.ParseM Model.OpsM
+  Proofs.LedgerProofs Proofs.LedgerOps Proofs.LedgerBase Proofs.LedgerNormalize Proofs.LedgerTheorems Proofs.LedgerTransparent
+  Proofs.LedgerRefused.
+Import ListNotations.
+
+Theorem C14_vocabulary : forall s s',
+  (fails_between s s' <-> exists n, ms_requests s < n <= ms_requests s' /\ plan_fails (ms_plan s) n = true)
+  /\ (wf s <-> (NoDup (live_ids s) /\ forall id, In id (live_ids s) -> id < ms_next s)).
+Proof. exact (fun s s' => conj (fails_between_meaning s s') (wf_meaning s)). Qed.
+Print Assumptions C14_vocabulary.
+
+Theorem C14_owns_meaning : forall m s, wf s ->
+  (owns m s <-> (consistent m /\ NoDup (muri_blocks m) /\ incl (muri_blocks m) (live_ids s))).
+Proof. exact owns_meaning. Qed.
+Print Assumptions C14_owns_meaning.
+
+(* ---- parse: out-of-memory only if a request was refused; then (as after a syntax error) the ledger is as
+   before the call; never a bad release; under NoFault never out-of-memory *)
+Theorem C14_parse_oom : forall t s0, wf s0 ->
+  match parse_m t s0 with
+  | (MMalloc, s') => fails_between s0 s' /\ Permutation (live_ids s') (live_ids s0) /\ bad_frees s' = bad_frees s0
+  | (_, s') => bad_frees s' = bad_frees s0
+  end /\ (ms_plan s0 = NoFault -> fst (parse_m t s0) <> MMalloc).
+Proof. exact parse_m_oom. Qed.
+Print Assumptions C14_parse_oom.
+
+(* the object of a successful parse owns its blocks, whatever the plan did in between (nothing was refused,
+   or the call would not have succeeded); no residue otherwise *)
+Theorem C14_parse_no_residue : forall t s0, wf s0 ->
+  match parse_m t s0 with
+  | (MOk m, s') => wf s' /\ ext s0 s' /\ owns m s' /\ m_owner m = false
+                   /\ Permutation (live_ids s') (muri_blocks m ++ live_ids s0)
+  | (MSyntax _, s') => wf s' /\ ext s0 s' /\ Permutation (live_ids s') (live_ids s0)
+  | (MMalloc, s') => wf s' /\ ext s0 s' /\ Permutation (live_ids s') (live_ids s0) /\ fails_between s0 s'
+  end.
+Proof. exact parse_m_no_residue. Qed.
+Print Assumptions C14_parse_no_residue.
+
+(* ---- in-place calls followed by the caller's ordinary clean-up (free the members of that object, nothing
+   else).  Whatever the call returned: the code is success or out-of-memory; out-of-memory only if a request
+   was refused; never under NoFault; no bad release anywhere; the blocks that left the ledger are exactly the
+   ones the object held before the call (each of them exactly once: the ledger has no duplicates); every other
+   live block is still live; a second clean-up does nothing *)
+Theorem C14_make_owner_clean : forall csize m s rc m' s' m'' s'', wf s -> owns m s ->
+  make_owner_m csize m s = (rc, m', s') -> free_members m' s' = (m'', s'') ->
+  (rc = URI_SUCCESS \/ rc = URI_ERROR_MALLOC) /\ (rc = URI_ERROR_MALLOC -> fails_between s s')
+  /\ (ms_plan s = NoFault -> rc = URI_SUCCESS)
+  /\ wf s'' /\ bad_frees s'' = bad_frees s /\ Permutation (live_ids s) (muri_blocks m ++ live_ids s'') /\ muri_blocks m'' = []
+  /\ free_members m'' s'' = (m'', s'').
+Proof. exact make_owner_m_cleanup. Qed.
+Print Assumptions C14_make_owner_clean.
+
+(* [sane]: a borrowed object must not have a present-but-empty scheme or IPvFuture text; parsed objects are
+   sane (C13_parsed_sane); without it the statement is false: C14_normalize_insane_refuted *)
+Theorem C14_normalize_clean : forall csize mask m s rc m' s' m'' s'', wf s -> owns m s -> (m_owner m = false -> sane m) ->
+  normalize_m csize mask m s = (rc, m', s') -> free_members m' s' = (m'', s'') ->
+  (rc = URI_SUCCESS \/ rc = URI_ERROR_MALLOC) /\ (rc = URI_ERROR_MALLOC -> fails_between s s')
+  /\ (ms_plan s = NoFault -> rc = URI_SUCCESS)
+  /\ wf s'' /\ bad_frees s'' = bad_frees s /\ Permutation (live_ids s) (muri_blocks m ++ live_ids s'') /\ muri_blocks m'' = []
+  /\ free_members m'' s'' = (m'', s'').
+Proof. exact normalize_m_cleanup. Qed.
+Print Assumptions C14_normalize_clean.
+
+(* before the clean-up: the object left behind is consistent and refers to live blocks only (also after
+   out-of-memory, where it is the partially converted object uriPreventLeakage leaves) *)
+Theorem C14_normalize_state : forall csize mask m s, wf s -> owns m s -> (m_owner m = false -> sane m) ->
+  match normalize_m csize mask m s with
+  | (rc, m', s') =>
+    wf s' /\ bad_frees s' = bad_frees s /\ owns m' s'
+    /\ Permutation (live_ids s' ++ muri_blocks m) (muri_blocks m' ++ live_ids s)
+    /\ ((rc = URI_SUCCESS /\ (mask <> 0%N -> m_owner m' = true) /\ (mask = 0%N -> m' = m /\ s' = s))
+        \/ (rc = URI_ERROR_MALLOC /\ m_owner m' = m_owner m /\ fails_between s s'))
+  end.
+Proof. exact normalize_m_balanced. Qed.
+Print Assumptions C14_normalize_state.
+
+Theorem C14_make_owner_state : forall csize m s, wf s -> owns m s ->
+  match make_owner_m csize m s with
+  | (rc, m', s') =>
+    wf s' /\ bad_frees s' = bad_frees s /\ owns m' s'
+    /\ Permutation (live_ids s' ++ muri_blocks m) (muri_blocks m' ++ live_ids s)
+    /\ ((rc = URI_SUCCESS /\ m_owner m' = true) \/ (rc = URI_ERROR_MALLOC /\ m_owner m' = false /\ fails_between s s'))
+  end.
+Proof. exact make_owner_m_balanced. Qed.
+Print Assumptions C14_make_owner_state.
+
+(* the finding behind [sane]: a hand-built borrowed URI whose scheme (resp. IPvFuture text) is present but
+   empty, mask = SCHEME|USER_INFO (resp. HOST|USER_INFO), first request refused: uriPreventLeakage releases
+   scheme.first (resp. hostData.ipFuture.first), which no allocator call returned.  Reproduced on the C code. *)
+Theorem C14_normalize_insane_refuted :
+  exists m mask p, owns m (ms_init p) /\ m_owner m = false /\ ~ sane m
+    /\ let '(rc, m', s') := normalize_m 1 mask m (ms_init p) in rc = URI_ERROR_MALLOC /\ bad_frees s' = 1.
+Proof. exact normalize_m_insane_refuted. Qed.
+Print Assumptions C14_normalize_insane_refuted.
+
+Theorem C14_normalize_insane_future_refuted :
+  exists m mask p, owns m (ms_init p) /\ m_owner m = false /\ ~ sane m /\ t_val (m_scheme m) <> Some []
+    /\ let '(rc, m', s') := normalize_m 1 mask m (ms_init p) in rc = URI_ERROR_MALLOC /\ bad_frees s' = 1.
+Proof. exact normalize_m_insane_future_refuted. Qed.
+Print Assumptions C14_normalize_insane_future_refuted.
+
+(* ---- calls with a destination, followed by the clean-up of the destination.  No hypothesis on the
+   arguments.  Nothing that was live before the call was released by it (so the read-only arguments keep all
+   their blocks); after the clean-up the live blocks are those from before the call *)
+Theorem C14_add_base_clean : forall compat rel base s rc d s' d'' s'', wf s ->
+  add_base_m compat rel base s = (rc, d, s') -> free_members d s' = (d'', s'') ->
+  (rc = URI_SUCCESS \/ rc = URI_ERROR_ADDBASE_REL_BASE \/ rc = URI_ERROR_MALLOC)
+  /\ (rc = URI_ERROR_MALLOC -> fails_between s s') /\ (ms_plan s = NoFault -> rc <> URI_ERROR_MALLOC)
+  /\ incl (live_ids s) (live_ids s')
+  /\ wf s'' /\ bad_frees s'' = bad_frees s /\ Permutation (live_ids s'') (live_ids s) /\ muri_blocks d'' = []
+  /\ free_members d'' s'' = (d'', s'').
+Proof. exact add_base_m_cleanup. Qed.
+Print Assumptions C14_add_base_clean.
+
+Theorem C14_remove_base_clean : forall domain_root src base s rc d s' d'' s'', wf s ->
+  remove_base_m domain_root src base s = (rc, d, s') -> free_members d s' = (d'', s'') ->
+  (rc = URI_SUCCESS \/ rc = URI_ERROR_REMOVEBASE_REL_BASE \/ rc = URI_ERROR_REMOVEBASE_REL_SOURCE \/ rc = URI_ERROR_MALLOC)
+  /\ (rc = URI_ERROR_MALLOC -> fails_between s s') /\ (ms_plan s = NoFault -> rc <> URI_ERROR_MALLOC)
+  /\ incl (live_ids s) (live_ids s')
+  /\ wf s'' /\ bad_frees s'' = bad_frees s /\ Permutation (live_ids s'') (live_ids s) /\ muri_blocks d'' = []
+  /\ free_members d'' s'' = (d'', s'').
+Proof. exact remove_base_m_cleanup. Qed.
+Print Assumptions C14_remove_base_clean.
+
+(* on any error the wrapper has already released the destination: it holds nothing and the caller's clean-up
+   is a no-op *)
+Theorem C14_add_base_state : forall compat rel base s, wf s ->
+  match add_base_m compat rel base s with
+  | (rc, d, s') =>
+    wf s' /\ bad_frees s' = bad_frees s /\ owns d s' /\ m_owner d = false
+    /\ Permutation (live_ids s') (muri_blocks d ++ live_ids s)
+    /\ (rc = URI_SUCCESS \/ rc = URI_ERROR_ADDBASE_REL_BASE \/ (rc = URI_ERROR_MALLOC /\ fails_between s s'))
+    /\ (rc <> URI_SUCCESS -> muri_blocks d = [] /\ free_members d s' = (d, s'))
+  end.
+Proof. exact add_base_m_balanced. Qed.
+Print Assumptions C14_add_base_state.
+
+Theorem C14_remove_base_state : forall domain_root src base s, wf s ->
+  match remove_base_m domain_root src base s with
+  | (rc, d, s') =>
+    wf s' /\ bad_frees s' = bad_frees s /\ owns d s' /\ m_owner d = false
+    /\ Permutation (live_ids s') (muri_blocks d ++ live_ids s)
+    /\ (rc = URI_SUCCESS \/ rc = URI_ERROR_REMOVEBASE_REL_BASE \/ rc = URI_ERROR_REMOVEBASE_REL_SOURCE
+        \/ (rc = URI_ERROR_MALLOC /\ fails_between s s'))
+    /\ (rc <> URI_SUCCESS -> muri_blocks d = [] /\ free_members d s' = (d, s'))
+  end.
+Proof. exact remove_base_m_balanced. Qed.
+Print Assumptions C14_remove_base_state.
+
+(* ---- a refused request is always reported: if the plan refused any request made during the call (the k-th,
+   for any k, whatever happens to later ones), the call returns the out-of-memory code.  With the theorems
+   above: the code is out-of-memory iff a request made during the call was refused.  No hypothesis on the
+   state or the arguments. *)
+Theorem C14_parse_refused_is_oom : forall t s, fails_between s (snd (parse_m t s)) -> fst (parse_m t s) = MMalloc.
+Proof. exact parse_m_refused_is_oom. Qed.
+Print Assumptions C14_parse_refused_is_oom.
+
+Theorem C14_make_owner_refused_is_oom : forall csize m s,
+  fails_between s (snd (make_owner_m csize m s)) -> fst (fst (make_owner_m csize m s)) = URI_ERROR_MALLOC.
+Proof. exact make_owner_m_refused_is_oom. Qed.
+Print Assumptions C14_make_owner_refused_is_oom.
+
+Theorem C14_normalize_refused_is_oom : forall csize mask m s,
+  fails_between s (snd (normalize_m csize mask m s)) -> fst (fst (normalize_m csize mask m s)) = URI_ERROR_MALLOC.
+Proof. exact normalize_m_refused_is_oom. Qed.
+Print Assumptions C14_normalize_refused_is_oom.
+
+Theorem C14_add_base_refused_is_oom : forall compat rel base s,
+  fails_between s (snd (add_base_m compat rel base s)) -> fst (fst (add_base_m compat rel base s)) = URI_ERROR_MALLOC.
+Proof. exact add_base_m_refused_is_oom. Qed.
+Print Assumptions C14_add_base_refused_is_oom.
+
+Theorem C14_remove_base_refused_is_oom : forall domain_root src base s,
+  fails_between s (snd (remove_base_m domain_root src base s)) -> fst (fst (remove_base_m domain_root src base s)) = URI_ERROR_MALLOC.
+Proof. exact remove_base_m_refused_is_oom. Qed.
+Print Assumptions C14_remove_base_refused_is_oom.
+
+(* ---- fault transparency: if the plan refuses none of the requests the call makes, the call returns what it
+   returns under NoFault and leaves the same ledger, counters and trace ([np s] = s with the plan NoFault).
+   No hypothesis on the state or the arguments. *)
+Theorem C14_parse_transparent : forall t s, ~ fails_between s (snd (parse_m t s)) ->
+  parse_m t (np s) = (fst (parse_m t s), np (snd (parse_m t s))).
+Proof. exact parse_m_fault_transparent. Qed.
+Print Assumptions C14_parse_transparent.
+
+Theorem C14_make_owner_transparent : forall csize m s, ~ fails_between s (snd (make_owner_m csize m s)) ->
+  make_owner_m csize m (np s) = (fst (make_owner_m csize m s), np (snd (make_owner_m csize m s))).
+Proof. exact make_owner_m_fault_transparent. Qed.
+Print Assumptions C14_make_owner_transparent.
+
+Theorem C14_normalize_transparent : forall csize mask m s, ~ fails_between s (snd (normalize_m csize mask m s)) ->
+  normalize_m csize mask m (np s) = (fst (normalize_m csize mask m s), np (snd (normalize_m csize mask m s))).
+Proof. exact normalize_m_fault_transparent. Qed.
+Print Assumptions C14_normalize_transparent.
+
+Theorem C14_add_base_transparent : forall compat rel base s, ~ fails_between s (snd (add_base_m compat rel base s)) ->
+  add_base_m compat rel base (np s) = (fst (add_base_m compat rel base s), np (snd (add_base_m compat rel base s))).
+Proof. exact add_base_m_fault_transparent. Qed.
+Print Assumptions C14_add_base_transparent.
+
+Theorem C14_remove_base_transparent : forall domain_root src base s, ~ fails_between s (snd (remove_base_m domain_root src base s)) ->
+  remove_base_m domain_root src base (np s) = (fst (remove_base_m domain_root src base s), np (snd (remove_base_m domain_root src base s))).
+Proof. exact remove_base_m_fault_transparent. Qed.
+Print Assumptions C14_remove_base_transparent.
+
+(* the release call makes no request and does not look at the plan *)
+Theorem C14_free_members_plan_independent : forall m s,
+  free_members m (np s) = (fst (free_members m s), np (snd (free_members m s)))
+  /\ ms_requests (snd (free_members m s)) = ms_requests s.
+Proof. exact free_members_plan_independent. Qed.
+Print Assumptions C14_free_members_plan_independent.
+
+(* example: "a/b/c" (borrowed, PATH bit, csize 4, three requests): every failure position ends with an empty
+   ledger (the former leak D9 -- second or third segment copy refused -- is gone), and the code is out-of-memory
+   exactly when one of the three requests is refused *)
+Example C14_nonvacuous :
+  let t := [97; 47; 98; 47; 99]%N in
+  (forall k, k <= 5 ->
+     match parse_m t (ms_init NoFault) with
+     | (MOk m, s1) =>
+       let s1' := {| ms_next := ms_next s1; ms_live := ms_live s1; ms_requests := 0; ms_plan := FailOnce k; ms_trace := ms_trace s1 |} in
+       let '(rc, m', s2) := normalize_m 4 8 m s1' in
+       let '(m'', s3) := free_members m' s2 in
+       ms_live s3 = [] /\ bad_frees s3 = 0 /\ (rc = URI_ERROR_MALLOC <-> (1 <= k <= 3))
+     | _ => False
+     end).
+Proof.
+  cbv zeta. intros k Hk.
+  do 6 (destruct k as [|k]; [vm_compute; repeat split; try discriminate; try lia; intros [? ?]; lia|]). lia.
+Qed.
